@@ -56,12 +56,12 @@ fn vname(i: usize) -> String {
     format!("v{i:03}")
 }
 
-/// deterministic large families: texts with up to 200 operands
+/// deterministic large families: texts with up to 257 (thorough 513) operands, all distinct variables
 pub fn large_family_texts(tier: Tier) -> Vec<(String, String)> {
     let lens: Vec<usize> = if tier.thorough() {
-        vec![17, 33, 63, 64, 65, 66, 127, 128, 129, 130, 191, 192, 193, 194, 200]
+        vec![17, 33, 63, 64, 65, 66, 127, 128, 129, 130, 191, 192, 193, 194, 200, 255, 256, 257, 258, 513]
     } else {
-        vec![33, 64, 65, 66, 129, 193]
+        vec![33, 64, 65, 66, 129, 193, 257]
     };
     let mut out = Vec::new();
     for &n in &lens {
@@ -169,7 +169,7 @@ pub fn run_large_families(rep: &mut Report, pipes: &[Pipe]) {
     for a in accs {
         rep.absorb(a);
     }
-    rep.bounds.push(format!("large deterministic families: {} texts with 17..200 operands, pipes {:?}: complete", fam.len(), pipes));
+    rep.bounds.push(format!("large deterministic families: {} texts with 17..257 (thorough ..513) operands, pipes {:?}: complete", fam.len(), pipes));
 }
 
 pub fn run(tier: Tier) -> i32 {
